@@ -372,7 +372,18 @@ func VerifC11_EscapedInput() {
 	rt.Assume(rt.All(c != 0, c < 0x80))
 	quoted := rt.Bool("quoted")
 	inKey := rt.Bool("in-key")
-	tok := "a\\" + string(rune(c)) + "b"
+	// the escaped character in the middle, at the start, at the end of the
+	// token, or the whole token
+	pre, post := "a", "b"
+	switch rt.Choice("position", 4) {
+	case 1:
+		pre = ""
+	case 2:
+		post = ""
+	case 3:
+		pre, post = "", ""
+	}
+	tok := pre + "\\" + string(rune(c)) + post
 	if quoted {
 		tok = "\"" + tok + "\""
 	}
@@ -389,7 +400,7 @@ func VerifC11_EscapedInput() {
 	sc, ok := q.where.(*stringCondition)
 	rt.Assert(ok, "escaped/is-string-condition")
 	if ok {
-		want := "a" + string(rune(c)) + "b"
+		want := pre + string(rune(c)) + post
 		if inKey {
 			rt.Assert(rt.EqStr(sc.key, want), "escaped/key-is-the-literal-character-without-the-backslash")
 		} else {
@@ -442,7 +453,12 @@ func VerifC11_InvalidOperandInGroups() {
 	case 10:
 		w = Or(And(ok1, ok2), Not(bad))
 	}
-	q := New("t:").Where(w)
+	q := New("t:")
+	if rt.Bool("checked-before-the-condition-is-set") {
+		// (a query that was checked, and then gets its condition)
+		_, _ = q.Check()
+	}
+	q.Where(w)
 	_, err := q.Check()
 	rt.ObserveBool("built-query-refused", err != nil)
 	if err == nil {
